@@ -71,6 +71,11 @@ class Check(PropertyCheck):
                 jobs = [job[:2] for job in jobs]
         else:
             family, jobs = gen.gen_instance(rng, fam, max_jobs=5, max_machines=4, max_ops=4)
+        if rng.random() < 0.08:
+            # times beyond 2**53: the filter's comparisons are integer comparisons
+            big = 2 ** rng.choice([53, 53, 60])
+            jobs = [[(ms, d + (big if rng.random() < 0.5 else 0)) for ms, d in job] for job in jobs]
+            family += "+huge"
         lines = ["new", instance_line(jobs), "filter comp dom"]
         if search:
             lines.append("mark search")
